@@ -199,3 +199,20 @@ def gen_waitop_case(rng, malformed=False):
             if phase[o] != "gone":
                 acts.append("d%d.%d" % (last[o] if last[o] is not None else 0, o))
     return "%d %d | %s | %s" % (v[0], v[1], " ".join(kinds), " ".join(acts))
+
+
+def gen_taskabi_case(rng):
+    """Input of harness/crates/rtmock/src/bin/taskabi.rs: register/unregister/deliver on waitable indices 1-7
+    (index 0 is the driver's sentinel); events only for currently registered waitables."""
+    reg, ops = set(), []
+    for _ in range(rng.range(0, 14)):
+        k = rng.weighted([("r", 5), ("u", 3), ("e", 3)])
+        w = rng.range(1, 7)
+        if k == "r":
+            ops.append("r%d.%d" % (w, rng.range(1, 9))); reg.add(w)
+        elif k == "u":
+            ops.append("u%d" % w); reg.discard(w)
+        elif reg:
+            w = rng.choice(sorted(reg))
+            ops.append("e%d=%d" % (w, rng.below(5))); reg.discard(w)
+    return " ".join(ops)
